@@ -15,10 +15,20 @@ duplication and reordering are free).  The environment steps are `EnvStep` below
 static membership; the Spec configuration is `Sim.cfgOf voters = Spec.jointCfg voters []`): `s` is reachable; every
 node satisfies `Sim.NodeInv` — sync mode, last `Ready` advanced, and the node-local invariant `Sim.RaftInv`, which
 contains the **restrictions of this theorem** as fields of `Sim.RaftStatic`: static membership `voters`, no learners,
-no joint configuration, no PreVote, no CheckQuorum, no leadership transfer, no ReadIndex, and an uncompacted log (no
+no joint configuration, no PreVote, no leadership transfer (CheckQuorum is free, per node), no ReadIndex, and an uncompacted log (no
 snapshots) —; the auxiliary model invariants `Sim.AuxInv`, `Sim.Settled`, `Sim.MaaProm`; the durable Spec version
 describes the node's storage (`Sim.DurInv`); vote requests are covered by the durable term or still queued
 (`Sim.CampInv`); and every network message is justified by the Spec soup (`Sim.NetOK`, `Sim.NetFrom`).
+
+**CheckQuorum** (`cfg.checkQuorum`, free per node — the hypothesis `checkQuorum = false` of the first version is
+lifted): (a) the leader's election-timeout tick steps `MsgCheckQuorum`: without an active quorum the leader becomes a
+follower of its own term — Spec `stepDown` —, otherwise (and afterwards) the `recentActive` flags are cleared, which
+the relation does not see (`Sim.RaftInv.clearRA`); (b) a MsgVote of a higher term inside the leader lease is ignored
+(no Spec action, `Sim.raises_or_lease`); (c) a MsgApp / MsgHeartbeat of a lower term is answered by an empty
+MsgAppResp of the node's own term (`Sim.staleResp`, queued behind the storage write like every MsgAppResp; it is no
+promise: `index = 0`), whose delivery deposes the stale leader — Spec `updateTerm` — (`Sim.lower_term_cases`).  A
+leader that stepped down in its own term may still hold its own acknowledgements of that term: they are never counted
+(`Sim.SelfOK`, `Sim.AuxFrame.fol`).
 
 **Restrictions on the environment** (visible in `EnvStep`): only the six message kinds of `Sim.Deliverable` (MsgVote,
 MsgVoteResp, MsgApp, MsgAppResp, MsgHeartbeat, MsgHeartbeatResp) and forwarded MsgProp are delivered — no MsgSnap,
@@ -54,12 +64,12 @@ inductive EnvStep (c : Cluster) : Cluster → Prop where
   | campaign (n : Nat) (rn rn' : RawNode) (draws : List Nat) (e : Option ApiErr) :
       c.nodes n = some rn → rn.campaign draws = .ok (e, rn') → EnvStep c (c.setNode n rn')
   /-- **crash and restart**: all volatile state is lost; the node is rebuilt by `RawNode.new` from its own storage
-  (with a configuration that again switches PreVote, CheckQuorum and async storage writes off).  Restriction: no
+  (with a configuration that again switches PreVote and async storage writes off; CheckQuorum is free).  Restriction: no
   vote request of the node is waiting in `msgs` (a crash between a campaign and the next `syncRound` is not
   covered: see STATUS.md, "reqVote"). -/
   | crash (n : Nat) (rn rn' : RawNode) (cfg : Config) (draws : List Nat) :
       c.nodes n = some rn → (∀ m ∈ rn.raft.msgs, m.typ ≠ .vote) →
-      cfg.id = n → cfg.preVote = false → cfg.checkQuorum = false → cfg.asyncStorageWrites = false →
+      cfg.id = n → cfg.preVote = false → cfg.asyncStorageWrites = false →
       cfg.applied = 0 → RawNode.new cfg rn.raft.log.storage draws = .ok rn' → EnvStep c (c.setNode n rn')
 
 theorem netOK_term_ne {val : Val} {msgs : List Spec.Msg} {m : Message} (hc : Deliverable m.typ)
@@ -135,7 +145,8 @@ theorem cluster_simulates {val : Val} {voters : List Id} {c c' : Cluster} {s : S
           simp only [ht] at this
           exact this.2
         have hb := sim_by_term2 (covered_sameTerm hc hto hnet hnf) hi ha reach hc
-          (netOK_term_ne hc hnet) (hnet.inOK hto) (fun hk hf => absurd hf (hfrom hk)) hr
+          (netOK_term_ne hc hnet) (hnet.inOK hto) (fun hk hf => absurd hf (hfrom hk))
+          (fun hk => covered_from_ne hto hnet hnf (by rcases hk with hk | hk <;> simp [hk])) hr
         have hD := simD_deliver hi reach hc (netOK_term_ne hc hnet) hto (hnet.inOK hto)
           (fun ht hf => absurd hf (hfrom (Or.inl ht))) hr
         exact hR.stepC hn hD.toC hb.2.1
@@ -200,7 +211,7 @@ theorem cluster_simulates {val : Val} {voters : List Id} {c c' : Cluster} {s : S
         (hR.dur n rn hn) hne hnd reach hrun
     have hcamp : CampInv n rn'.raft (s'.nodes n) s'.msgs := fun t lt li hx => Or.inl (h10 t lt li hx)
     exact ⟨s', hR.lift n rn' rd.messages as h1 h2 h3 h4 h5 h8 h6 h7 h9 hcamp⟩
-  | crash n rn rn' cfg draws hn hnv hid hpv hcq has happ hnew =>
+  | crash n rn rn' cfg draws hn hnv hid hpv has happ hnew =>
     have hnode := hR.rs.ra.base.nodes n rn hn
     have hne : voters ≠ [] := List.ne_nil_of_mem hnode.inv.st.self
     have hcfg : (cfgOf voters).OK := Spec.jointCfg_ok voters [] hne hnd (by simp)
@@ -217,7 +228,7 @@ theorem cluster_simulates {val : Val} {voters : List Id} {c c' : Cluster} {s : S
       · exact h
       · exact absurd hmt (hnv m hm)
     obtain ⟨a1, a2, a3, a4, a5, a6⟩ := restart_nodeInv hnode (hR.rs.settled n rn hn) (hR.dur n rn hn) hsorted h0
-      hid hpv hcq has happ hle hrv hnew
+      hid hpv has happ hle hrv hnew
     have hl := hR.lift n rn' [] [.crash n] hrun (by simp [Spec.Action.actor])
       (by rw [hnodes, hmsgs]; exact a1) (by simp) a2 (by simp) a3
       (by intro m hm; rw [a5] at hm; cases hm) (by rw [hnodes]; exact a6)
@@ -248,11 +259,22 @@ theorem reachable_related {val : Val} {voters : List Id} {c0 c : Cluster}
 
 /-- an **initial cluster** over the (sorted) voter list `voters`: the network is empty and every node is a voter
 freshly built by `RawNode.new` on the empty storage bootstrapped with the membership, with a configuration that
-switches PreVote, CheckQuorum and asynchronous storage writes off -/
+switches PreVote and asynchronous storage writes off (`cfg.checkQuorum` is arbitrary, per node) -/
 def InitCluster (voters : List Id) (c0 : Cluster) : Prop :=
   c0.net = [] ∧ ∀ n rn, c0.nodes n = some rn → n ∈ voters ∧
-    ∃ (cfg : Config) (draws : List Nat), cfg.id = n ∧ cfg.preVote = false ∧ cfg.checkQuorum = false ∧
+    ∃ (cfg : Config) (draws : List Nat), cfg.id = n ∧ cfg.preVote = false ∧
       cfg.asyncStorageWrites = false ∧ cfg.applied = 0 ∧ RawNode.new cfg (initStorage voters) draws = .ok rn
+
+/-- the initial clusters of the first version of the theorem (CheckQuorum switched off in every node) are initial
+clusters: the old statements are special cases of the present ones -/
+theorem InitCluster.of_noCheckQuorum {voters : List Id} {c0 : Cluster}
+    (h : c0.net = [] ∧ ∀ n rn, c0.nodes n = some rn → n ∈ voters ∧
+      ∃ (cfg : Config) (draws : List Nat), cfg.id = n ∧ cfg.preVote = false ∧ cfg.checkQuorum = false ∧
+        cfg.asyncStorageWrites = false ∧ cfg.applied = 0 ∧ RawNode.new cfg (initStorage voters) draws = .ok rn) :
+    InitCluster voters c0 := by
+  refine ⟨h.1, fun n rn hn => ?_⟩
+  obtain ⟨hm, cfg, draws, a, b, _, c, d, e⟩ := h.2 n rn hn
+  exact ⟨hm, cfg, draws, a, b, c, d, e⟩
 
 /-- a freshly built node: nothing pending in `unstable`, empty promise queue, storage = the bootstrap storage -/
 theorem init_extra {voters : List Id} {c : Config} {draws : List Nat} {rn : RawNode}
@@ -280,8 +302,8 @@ theorem init_related {val : Val} {voters : List Id} {c0 : Cluster} (hsorted : vo
       (Settled rn.raft ∧ MaaProm rn.raft ∧ rn.raft.log.storage = initStorage voters ∧
         rn.prevHard = RawNode.hardState rn.raft ∧ rn.raft.msgs = []) := by
     intro n rn hn
-    obtain ⟨hmem, cfg, draws, hid, hpv, hcq, has, happ, hnew⟩ := hc.2 n rn hn
-    exact ⟨init_nodeInv hid hmem hnd hsorted h0 hpv hcq has happ hnew, init_extra hsorted h0 happ hnew⟩
+    obtain ⟨hmem, cfg, draws, hid, hpv, has, happ, hnew⟩ := hc.2 n rn hn
+    exact ⟨init_nodeInv hid hmem hnd hsorted h0 hpv has happ hnew, init_extra hsorted h0 happ hnew⟩
   refine ⟨⟨⟨⟨.init, fun n rn hn => (key n rn hn).1.1, ?_⟩, fun n rn hn => (key n rn hn).1.2, ?_⟩,
     fun n rn hn => (key n rn hn).2.1, fun n rn hn => (key n rn hn).2.2.1⟩, ?_, ?_⟩
   · intro m hm; rw [hc.1] at hm; cases hm
